@@ -36,6 +36,7 @@ func replay(cat *catalogue, path string) {
 			Ops      []*op        `json:"ops"`
 			Scenario *relScenario `json:"scenario"`
 			Pathmix  *pmScenario  `json:"pathmix"`
+			Dispatch *dspScenario `json:"dispatch"`
 			Chase    *chaseCase   `json:"chase"`
 		} `json:"witness"`
 	}
@@ -43,9 +44,11 @@ func replay(cat *catalogue, path string) {
 		fmt.Println("cannot parse replay:", err)
 		os.Exit(2)
 	}
-	if f.Witness.Pathmix != nil || f.Witness.Chase != nil { // path-mixing / chase layers
+	if f.Witness.Pathmix != nil || f.Witness.Chase != nil || f.Witness.Dispatch != nil { // path-mixing / chase / dispatch layers
 		rec := &printRec{want: f.Key}
-		if f.Witness.Pathmix != nil {
+		if f.Witness.Dispatch != nil {
+			runDispatch(rec, f.Witness.Dispatch)
+		} else if f.Witness.Pathmix != nil {
 			runPathmix(rec, cat, f.Witness.Pathmix)
 		} else {
 			runChase(rec, f.Witness.Chase)
@@ -246,6 +249,21 @@ func main() {
 		})
 	}
 
+	// dispatch-time initialisation with resident neighbours (dispatch.go)
+	dsps := canonicalDispatch()
+	dspBase := c.Rand("dispatch")
+	for i := 0; i < c.N(150, 3000); i++ {
+		dsps = append(dsps, genDispatch(dspBase.ForkN("d", i), i))
+	}
+	if os.Getenv("C07_SKIP_DISPATCH") == "" {
+		vlib.Parallel(len(dsps), 0, func(i int) {
+			if i == len(dsps)-1 {
+				c.Sample(map[string]any{"dispatch_scenario": dsps[i]})
+			}
+			runDispatch(c, dsps[i])
+		})
+	}
+
 	// fourth layer: end-to-end pointer-chasing kernels, timing vs emulation vs host (chase.go)
 	chases := canonicalChases()
 	nCh := c.N(120, 2000)
@@ -277,6 +295,9 @@ func main() {
 			"flat_load_dword x1..x4, s_mov, v_mov, s_cmp, v_readfirstlane, ds_read -- are put into Wavefront.InstToIssue and executed by the real scheduler/units/load-return handlers, " +
 			"mixed with accessor reads/writes, register-file writes made with the exact calls of handleScalarDataLoadReturn/handleVectorDataLoadReturn and hand-made s_load answers " +
 			"delivered to ToScalarMem), every read compared with a shadow array of cells; non-trivial = history with at least one 'read X, non-accessor write of X, read X again' and one load answer handled by the real compute unit; " +
+			"dispatch layer: case = scenario (both register files of a real compute unit filled with a pattern, 1..5 resident wavefronts with seeded footprints, then 2..6 wavefronts dispatched through the real " +
+			"WfDispatcherImpl.DispatchWf with seeded enable bits / id levels / V3 and V5 code objects; both files compared byte by byte around every dispatch: only the cells the ABI initialises may change, with the ABI's values; " +
+			"every second dispatch is repeated in the emulation compute unit), non-trivial = scenario without deviation; " +
 			"decode-history layer (runs first, sequentially): case = instruction stream decoded on a long-lived decoder per architecture (64-bit uses of vcc/exec/SGPR pairs before and after 32-bit uses of their halves, " +
 			"constants between them) and executed by the real ALUs on both stores; the expected cells of every access come from the encoding (ISA width), not from the operand object; every operand object is snapshotted at decode and re-compared after every later decode; " +
 			"non-trivial = stream without deviation; " +
@@ -310,6 +331,9 @@ func main() {
 			"pm.reads_verified": int64(len(pms)) * int64(pmSteps), "pm.sweeps": int64(2 * len(pms)),
 			"chase.kernels_run": int64(len(chases)), "chase.loads_overwriting_their_address_registers": int64(3 * len(chases)),
 			"chase.dump_dwords_compared": int64(1000 * len(chases)), "chase.lds_write2_kernels.gcn3": 8, "chase.lds_write2_kernels.cdna3": 8,
+			"dsp.scenarios": int64(len(dsps)) * 9 / 10, "dsp.dispatches": int64(2 * len(dsps)), "dsp.dispatches_with_sreg_offset_ne_vreg_offset": int64(2 * len(dsps)),
+			"dsp.dispatches_with_id_level_2": int64(len(dsps)) / 2, "dsp.dispatches_onto_simd_with_2plus_residents": int64(len(dsps)), "dsp.dispatches_v5": int64(len(dsps)) / 10,
+			"dsp.emu_initialisations_compared": int64(len(dsps)), "dsp.init_cells_verified": int64(100 * len(dsps)),
 			"dh.histories": int64(len(dhs)), "dh.instructions_decoded": int64(150 * len(dhs)), "dh.instructions_executed": int64(300 * len(dhs)),
 			"dh.operand_objects_rechecked": int64(20000 * len(dhs)), "dh.half_accesses_after_64bit_decode": int64(40 * len(dhs)),
 			"dh.direct_operand_reads": int64(200 * len(dhs)), "dh.same_encoding_redecoded": int64(5 * len(dhs)),
